@@ -69,9 +69,43 @@ class SU:
                 owner, m = c.lookup_owner(func.name)
             except KeyError:
                 continue
-            if isinstance(m, FuncRef) and m.node is func.node:
+            if isinstance(m, FuncRef) and m.node is func.node and id(func.node) in self._live_methods(v):
                 out.append(v)
         return out
+
+    def _live_methods(self, v):
+        """Method definitions that can run on a version-v handler: every public (or dunder) method the class resolves,
+        plus the private helpers reachable from those through ``self.helper(...)`` calls resolved in that version.  A
+        private helper that only the overridden methods of an older version call is dead in the newer one."""
+        cache = self.__dict__.setdefault("_live_cache", {})
+        if v in cache:
+            return cache[v]
+        c = self.vcls[v]
+        resolved = {}
+        for k in c.mro():
+            if isinstance(k, ClassRef):
+                for name, m in k.attrs.items():
+                    if isinstance(m, FuncRef) and name not in resolved:
+                        resolved[name] = m
+        # private helpers referenced from outside the handler classes are roots too
+        outside = set()
+        for f in self.repo.all_functions():
+            if self.is_handler_class(f.cls):
+                continue
+            for n in ast.walk(f.node):
+                if isinstance(n, ast.Attribute) and n.attr in resolved:
+                    outside.add(n.attr)
+        live, work = set(), [m for name, m in resolved.items() if not name.startswith("_") or name.startswith("__") or name in outside]
+        while work:
+            m = work.pop()
+            if id(m.node) in live:
+                continue
+            live.add(id(m.node))
+            for n in ast.walk(m.node):
+                if isinstance(n, ast.Attribute) and isinstance(n.value, ast.Name) and n.value.id in ("self", "cls") and n.attr in resolved:
+                    work.append(resolved[n.attr])
+        cache[v] = live
+        return live
 
     def is_handler_class(self, cls):
         return cls is not None and any(n == "ProtocolHandler" for n in cls.base_names())
@@ -158,9 +192,22 @@ class SU:
             if isinstance(par, ast.If):
                 branch = "body" if any(node is s for s in par.body) else ("orelse" if any(node is s for s in par.orelse) else None)
                 if branch:
-                    val = self._version_test(par.test, v)
+                    val = self._version_test(par.test, v, f.mod)
                     if val is not None and ((branch == "body" and not val) or (branch == "orelse" and val)):
                         return f"version test `{ast.unparse(par.test)}` excludes v{v}"
+            # guard clause: an earlier sibling `if <version test>: return / raise / continue / break` leaves the block for v
+            for fld in ("body", "orelse", "finalbody"):
+                blk = getattr(par, fld, None)
+                if isinstance(blk, list) and any(node is s for s in blk):
+                    for sib in blk:
+                        if sib is node:
+                            break
+                        if isinstance(sib, ast.If):
+                            tv = self._version_test(sib.test, v, f.mod)
+                            if tv is True and sib.body and isinstance(sib.body[-1], (ast.Return, ast.Raise, ast.Continue, ast.Break)):
+                                return f"guard clause `if {ast.unparse(sib.test)}: ...` leaves for v{v}"
+                            if tv is False and sib.orelse and isinstance(sib.orelse[-1], (ast.Return, ast.Raise, ast.Continue, ast.Break)):
+                                return f"guard clause `if {ast.unparse(sib.test)}: ... else: leave` leaves for v{v}"
             if isinstance(par, ast.Try) and any(node is s for s in par.body):
                 for h in par.handlers:
                     names = [ast.unparse(t).split(".")[-1] for t in (h.type.elts if isinstance(h.type, ast.Tuple) else [h.type])] if h.type else ["BaseException"]
@@ -169,16 +216,61 @@ class SU:
             node = par
         return None
 
-    def _version_test(self, test, v):
-        """Evaluate a comparison on the protocol version for version v; None if the test is about something else."""
-        if isinstance(test, ast.Compare) and len(test.ops) == 1:
-            l, r = ast.unparse(test.left), test.comparators[0]
-            if re.search(r"(ezsp_version|_ezsp_version|\.VERSION|\bversion)$", l) and isinstance(r, ast.Constant) and isinstance(r.value, int):
-                import operator as o
+    def _version_test(self, test, v, mod=None):
+        """Evaluate a test on the protocol version for version v (three-valued): comparisons of the negotiated version with
+        constants (literals or module-level names), membership in constant collections, and / or / not combinations;
+        None if the test is about something else."""
+        import operator as o
 
-                op = {ast.GtE: o.ge, ast.Gt: o.gt, ast.LtE: o.le, ast.Lt: o.lt, ast.Eq: o.eq, ast.NotEq: o.ne}.get(type(test.ops[0]))
-                if op:
-                    return op(v, r.value)
+        def operand(n):
+            txt = ast.unparse(n)
+            if re.search(r"(ezsp_version|_ezsp_version|\.VERSION|\bversion)$", txt):
+                return ("v", v)
+            if isinstance(n, ast.Constant) and isinstance(n.value, int):
+                return ("c", n.value)
+            if mod is not None:
+                try:
+                    val = self.repo.te.ev(n, self.repo.module(mod), mod)
+                except Exception:
+                    return None
+                if isinstance(val, Member):
+                    val = val.value
+                if isinstance(val, int) and not isinstance(val, bool):
+                    return ("c", val)
+                if isinstance(val, (tuple, list, set, frozenset)) and all(isinstance(x, int) for x in val):
+                    return ("c", tuple(val))
+            return None
+
+        if isinstance(test, ast.BoolOp):
+            vals = [self._version_test(x, v, mod) for x in test.values]
+            if isinstance(test.op, ast.And):
+                if any(x is False for x in vals):
+                    return False
+                return True if all(x is True for x in vals) else None
+            if any(x is True for x in vals):
+                return True
+            return False if all(x is False for x in vals) else None
+        if isinstance(test, ast.UnaryOp) and isinstance(test.op, ast.Not):
+            r = self._version_test(test.operand, v, mod)
+            return None if r is None else (not r)
+        if isinstance(test, ast.Compare):
+            ops = {ast.GtE: o.ge, ast.Gt: o.gt, ast.LtE: o.le, ast.Lt: o.lt, ast.Eq: o.eq, ast.NotEq: o.ne,
+                   ast.In: lambda a, b: a in b, ast.NotIn: lambda a, b: a not in b}
+            left = operand(test.left)
+            res = True
+            seen_version = False
+            for op, cmp_ in zip(test.ops, test.comparators):
+                right = operand(cmp_)
+                fn = ops.get(type(op))
+                if left is None or right is None or fn is None:
+                    return None
+                seen_version = seen_version or left[0] == "v" or right[0] == "v"
+                try:
+                    res = res and bool(fn(left[1], right[1]))
+                except TypeError:
+                    return None
+                left = right
+            return res if seen_version else None
         return None
 
     # ---------------------------------------------------------------- checks
